@@ -18,6 +18,6 @@ for i, e in enumerate(evs, 1): print(i, json.dumps(e)[:300])
 d = common.rundir("DBG", "in")
 json.dump([p["ast"]], open(d + "/asts.json", "w")); open(d + "/t.ndjson", "w").write("".join(json.dumps(e) + "\n" for e in evs))
 dl = sys.argv[3] if len(sys.argv) > 3 else str(len(evs) + 1)
-cfg = "SPECIFICATION TSpec\nINVARIANT SemTypeOK DepthBound CallsGoDown LoopCount DebugStop\nCONSTRAINT Progress\nPOSTCONDITION ReportProgress\nCHECK_DEADLOCK FALSE\n"
+cfg = "SPECIFICATION TSpec\nINVARIANT SemTypeOK DepthBound CallsGoDown LoopCount DebugStop\nCONSTRAINT Progress\nPOSTCONDITION Accepted\nCHECK_DEADLOCK FALSE\n"
 r = common.tlc("TheoSemTrace", cfg, "DBG", "run", env={"ASTS": d + "/asts.json", "TRACE": d + "/t.ndjson", "DEBUGL": dl}, workers=1, deque=True)
 print(r.violated, r.error); print(r.out[-int(os.environ.get("TAIL", "3000")):])
